@@ -397,15 +397,24 @@ func fixedCases() {
 		}
 	}
 	run.Count("fixed:zero-extent-boxes")
-	// array-level entry points on large arrays: sizes around the powers of two, several worker counts
-	workers := []int{2, 3, 5, 7, 16}
+	// array-level entry points on large arrays — the SIZE LADDER: a rung just past every power of two an implementation
+	// might switch strategy at (2^10, 2^12, 2^13, 2^14, 2^15; thorough: 2^16, 2^17) plus 8191 / 8192 and 65537, every entry
+	// point on every rung, worker counts taking turns; all points distinct; every element compared with the scalar entry
+	// point here, samples + a weighted fingerprint of all elements in Coq; inputs must come back unchanged
+	workers := []int{2, 3, 5, 7, 16, 4, 8}
 	k := 0
-	for _, n := range []int{8191, 8192, 8193, 10007, 20003, 65537} {
+	ladder := []int{1<<10 + 1, 1<<12 + 1, 8191, 8192, 1<<13 + 1, 1<<14 + 1, 1<<15 + 1, 1<<16 + 1}
+	if run.Tier == "thorough" {
+		ladder = append(ladder, 1<<17+1, 1<<17-1, 1<<16, 1<<15, 1<<14, 3<<12+1, 5<<11+3)
+	}
+	for _, n := range ladder {
 		for _, entry := range []string{"trs.TransformArray", "trs.TransformInPlace", "mesh.ApplyTRS", "mesh.Rotate", "mesh.Translate", "mesh.Scale", "quat.RotateArray"} {
 			doBig(bigDesc{Entry: entry, N: n, PSeed: uint64(1000 + k), Workers: workers[k%len(workers)],
 				P: []float64{1, -2, 3}, S: []float64{2, 3, -1}, Q: []float64{1, 0, 2, -1}})
 			k++
 		}
+		doBigBox(bigBoxDesc{N: n, PSeed: uint64(1000 + k), ViaMesh: k%2 == 0, Off: []float64{float64(k%7) - 3, 0.5, float64(n % 5)}, Workers: workers[k%len(workers)]})
+		k++
 	}
 	for _, n := range []int{0, 1, 2, 3, 5} { // and tiny arrays, every element evaluated in Coq
 		for _, entry := range []string{"trs.TransformArray", "trs.TransformInPlace", "quat.RotateArray", "mesh.ApplyTRS", "mesh.Rotate"} {
@@ -612,6 +621,10 @@ func generated(r *hx.Rng, i int) {
 		n := (1 << r.Range(6, 16)) + r.Range(-3, 3)
 		if r.Chance(1, 3) {
 			n = r.Range(1, 70000)
+		}
+		if r.Chance(1, 6) {
+			doBigBox(bigBoxDesc{N: n, PSeed: r.U64() >> 1, ViaMesh: r.Bool(), Off: ints(r, 3, -9, 9), Workers: hx.Pick(r, []int{2, 3, 4, 5, 8, 16})})
+			return
 		}
 		doBig(bigDesc{Entry: entry, N: n, PSeed: r.U64() >> 1, Workers: hx.Pick(r, []int{2, 3, 4, 5, 6, 7, 8, 11, 13, 16}),
 			P: ints(r, 3, -9, 9), S: ints(r, 3, -4, 4), Q: ints(r, 4, -4, 4)})
